@@ -207,7 +207,7 @@ structure Conn where
   sent : Bytes := []            -- everything the client wrote
   heads : List Bytes := []      -- request heads consumed by the parser, one entry per request
   handed : Bytes := []          -- bytes handed to the application (extra data, then its own reads)
-  outq : Bytes := []            -- reply bytes produced by the daemon
+  outq : List Bytes := []       -- reply heads (+ bodies) produced by the daemon, one entry per reply
   log : List Ev := []
   deriving Repr
 
@@ -333,13 +333,14 @@ def afterSend (cfg : Cfg) (x : Conn) : Conn × Bool :=
       else (finishOrdinary x, false)
   else (x, false)
 
-/-- START_REPLY: build the reply into the write buffer -/
+/-- START_REPLY: build the reply into the write buffer (at its append offset; the buffer is
+    empty at this point: the previous reply was sent completely before the request was read) -/
 def startReply (cfg : Cfg) (x : Conn) : Conn :=
   match x.rp with
   | none => x
   | some rid =>
     let bytes := if (cfg.resp rid).upgrade then head101 cfg (cfg.resp rid) else cfg.render rid
-    { x with wbuf := bytes, outq := x.outq ++ bytes }
+    { x with wbuf := x.wbuf ++ bytes, outq := x.outq ++ [bytes] }
 
 /-- entry into the access handler: the call is logged, `rq.client_aware = true` -/
 def handlerEntered (x : Conn) (final : Bool) : Conn :=
